@@ -239,6 +239,30 @@ Proof.
 Qed.
 
 Local Open Scope R_scope.
+Definition exAR : frag R := mkFrag [mkAtom 1 false [6%Z]; mkAtom 2 true [0%Z]; mkAtom 3 false [1%Z]; mkAtom 4 true [0%Z]]
+                                 [mkBond 1 2 [1%Z]; mkBond 3 1 [1%Z]; mkBond 1 4 [1%Z]]
+                                 [(0, 0, 0); (2, 0, 0); (0, 1, 0); (0, 0, 3)] 0 1.
+Definition exBR : frag R := mkFrag [mkAtom 11 true [0%Z]; mkAtom 12 false [7%Z]; mkAtom 13 false [1%Z]]
+                                 [mkBond 12 11 [1%Z]; mkBond 12 13 [2%Z]]
+                                 [(5, 5, 8); (5, 5, 5); (6, 5, 5)] 1 2.
+Definition exOpR : jopts R := mkOpts (Some 2) (Some 0%Z) None [1%Z; 0%Z] (Some (3/4)) (Some (71/100)) (3/4).
+Definition exWR : jwit R := mkWit 2 3 (0, 1, 0) (Some (3/5, 4/5)).
+(* the hypotheses of C12_atoms_bonds and C12_rigid_each_and_new_bond hold together on a concrete pair of fragments over R
+   (attachment vectors (2,0,0) and (0,0,3), requested length 2, a rotamer rotation (3/5, 4/5)) *)
+Example C12_ex_join_R :
+  (exists P, join ROps exAR exBR (ByIdx 1) (ById 11) exOpR exWR = Some P) /\
+  NoDup (ids (fr_atoms exAR) ++ ids (fr_atoms exBR)) /\ wf_bonds exAR /\ wf_bonds exBR /\
+  resolved exAR exBR (ByIdx 1) (ById 11) 2 11 1 12 (0, 0, 0) (2, 0, 0) (5, 5, 5) (5, 5, 8) /\
+  geom_ok (vsub ROps (2, 0, 0) (0, 0, 0)) (vsub ROps (5, 5, 8) (5, 5, 5)) exWR.
+Proof.
+  split; [eexists; unfold join; simpl; reflexivity|].
+  split; [repeat constructor; simpl; intuition discriminate|].
+  split; [intros b [<-|[<-|[<-|[]]]]; simpl; intuition|].
+  split; [intros b [<-|[<-|[]]]; simpl; intuition|].
+  split; [constructor; reflexivity|].
+  unfold geom_ok, unit, twist_ok, exWR. simpl. f3. repeat split; lra.
+Qed.
+
 (* the geometric hypotheses: attachment vectors (2,0,0) and (0,3,4), ov = (0,1,0), a rotamer rotation (3/5, 4/5) *)
 Example C12_ex_geom_ok :
   geom_ok (2, 0, 0) (0, 3, 4) (mkWit 2 5 (0, 1, 0) (Some (3/5, 4/5))) /\
